@@ -146,6 +146,8 @@ def generate(rng, tier):
     # (4) end to end
     for v in range(3 if tier == "quick" else 8):
         cases.append({"kind": "e2e", "v": v})
+    # lines several times longer than MaxLineLength (cut into pieces, each a line of its own) from two files at once
+    cases.append({"kind": "e2e_long"})
     return cases
 
 
@@ -186,6 +188,22 @@ def _e2e(env, v):
     return {"rc": rc, "v": v, "grep": grep, "hosts": hosts, "stderr": err[-300:].decode("latin1"), "stdout_bytes": len(out)}
 
 
+def _e2e_long(env):
+    base = os.path.join(env.dir, "e2elong")
+    os.makedirs(base, exist_ok=True)
+    maxlen = 100
+    files = {}
+    for name, lens in (("a.log", [30, 250, 10, 100, 99, 320]), ("b.log", [5, 201, 7, 450])):
+        lines = [("%s-%02d-" % (name[0], k)).encode() + bytes([65 + k]) * (n - 5) for k, n in enumerate(lens)]
+        with open(os.path.join(base, name), "wb") as fh:
+            fh.write(b"".join(l + b"\n" for l in lines))
+        files[name] = lines
+    s = env.start_server("e2elong", hostname="delta.example.org", server_cfg={"MaxLineLength": maxlen})
+    rc, out, err = env.client("dcat", ["--noColor", "--logLevel", "error", "--files", base + "/*.log"], servers=[s], timeout=120)
+    s.stop()
+    return {"rc": rc, "out": out.decode("latin1"), "maxlen": maxlen, "files": {k: [l.decode() for l in v] for k, v in files.items()}}
+
+
 def run_impl(cases, tier):
     env = _state["env"]
     obs = [None] * len(cases)
@@ -215,6 +233,9 @@ def run_impl(cases, tier):
     with ThreadPoolExecutor(4) as ex:
         for i, x in zip(ei, ex.map(lambda i: _e2e(env, cases[i]["v"]), ei)):
             obs[i] = x
+    for i, c in enumerate(cases):
+        if c["kind"] == "e2e_long":
+            obs[i] = _e2e_long(env)
     env.stop_all()
     return obs
 
@@ -341,6 +362,32 @@ def judge(cases, obs, tier):
                     oracle[i] = "followed file: line %r is labelled with running number %d, id %r (lines dropped before it: %s)" % (text[:12], l["n"], l["id"], [d for d in drops if d < l["n"]][-3:])
                     break
             c["_drops"] = len(drops)
+        elif c["kind"] == "e2e_long":
+            recs, other, bad = _lines_whole(o["out"].encode("latin1"))
+            other = [l for l in other if b"Long log line" not in l]
+            problem = None
+            if o["rc"] != 0:
+                problem = "client exit status %d" % o["rc"]
+            elif bad:
+                problem = "stdout line is not one whole record: %r" % bad[0]
+            else:
+                for name, lines in o["files"].items():
+                    mine = [t for (h, perc, cnt, sid, t) in recs if sid.decode() == name]
+                    want = []
+                    for l in lines:          # a line is cut into pieces of MaxLineLength bytes, the rest keeps the line's own end
+                        b = l.encode()
+                        while len(b) >= o["maxlen"]:
+                            want.append(b[:o["maxlen"]]); b = b[o["maxlen"]:]
+                        want.append(b)
+                    want = [w for k, w in enumerate(want)]
+                    # (a piece of exactly MaxLineLength bytes at the end of a line leaves an empty rest: a line of its own)
+                    if mine != want:
+                        j = next((x for x in range(min(len(mine), len(want))) if mine[x] != want[x]), min(len(mine), len(want)))
+                        problem = "source %s: %d pieces, expected %d; first difference at piece %d: got %r, expected %r" % (
+                            name, len(mine), len(want), j, mine[j][:40] if j < len(mine) else None, want[j][:40] if j < len(want) else None)
+                        break
+            if problem:
+                oracle[i] = "lines longer than MaxLineLength from two files: " + problem
         elif c["kind"] == "e2e":
             big = _state["e2e"][o["v"]]
             recs, other, bad = _lines_whole(big["out"])
@@ -392,7 +439,7 @@ def classify(case, ob, detail):
 
 
 def nontrivial(c):
-    return c.get("_switches", 0) >= 2 or c.get("_sched_switches", 0) >= 2
+    return c["kind"] == "e2e_long" or c.get("_switches", 0) >= 2 or c.get("_sched_switches", 0) >= 2
 
 
 def sample(c, o):
@@ -405,6 +452,8 @@ def sample(c, o):
         return {"kind": "tail", "cap": c["cap"], "events": len(c["events"]), "delivered": [(l["n"], l["p"]) for l in ((o or {}).get("got") or [])][:12], "dropped_lines": c.get("_drops")}
     if c["kind"] == "cli":
         return {"kind": "cli", "conns": c["conns"], "mode": c["mode"], "events": len(c["events"]), "messages": [len(m) for m in c["_msgs"]], "connection_switches_in_stdout": c.get("_switches")}
+    if c["kind"] == "e2e_long":
+        return {"kind": "e2e_long", "rc": (o or {}).get("rc"), "maxlen": (o or {}).get("maxlen"), "stdout_bytes": len((o or {}).get("out", ""))}
     return {"kind": "e2e", "v": c["v"], "rc": (o or {}).get("rc"), "stdout_bytes": (o or {}).get("stdout_bytes"), "source_switches": c.get("_switches")}
 
 
